@@ -329,9 +329,10 @@ SessCap(sk, n) ==
     @@ SetIns(sk, BAdd(SumOuts(sk), CapCode(sk)))
 \* an output that is in the wallet AND allowlisted, 10 000 sat lost per step (below the fee cap):
 \* three of them exceed the hourly limit - the velocity accounting must see each
-SessSk4 == Skel(PH, <<"p2wpkh">>, <<OutA("W", B(50000), TRUE)>>, <<>>, TRUE, TRUE)
+\* (input = twice the output: a validator counting the output twice sees no loss at all)
+SessSk4 == Skel(PH, <<"p2wpkh">>, <<OutA("W", B(10000), TRUE)>>, <<>>, TRUE, TRUE)
 SessOvl == [grp |-> "G6", fee |-> "ovl", fam |-> "session", approve |-> TRUE, jump |-> FALSE]
-             @@ SetIns(SessSk4, B(60000))
+             @@ SetIns(SessSk4, B(20000))
 SessAlphabet == {SessStep(n, j) : n \in {"cap", "fill", "fill+1", "one", "w64+0"}, j \in BOOLEAN}
                   \cup {SessCap(SessSk2, "cap2"), SessCap(SessSk3, "cap3"), SessOvl}
 Sessions(T) ==
